@@ -1,5 +1,7 @@
 package bebop
 
+import "strings"
+
 func (f File) customRecordTypes() map[string]struct{} {
 	out := make(map[string]struct{})
 	for _, st := range f.Structs {
@@ -16,6 +18,47 @@ func (f File) customRecordTypes() map[string]struct{} {
 			}
 			if ufd.Message != nil {
 				out[ufd.Message.Name] = struct{}{}
+			}
+		}
+	}
+	return out
+}
+
+// possiblyEmptyTypes lists the structs that can encode to zero bytes: those whose
+// fields, if any, are all themselves such structs. (Messages and unions always carry
+// a length prefix.)
+func (f File) possiblyEmptyTypes() map[string]struct{} {
+	structs := map[string]Struct{}
+	for _, st := range f.Structs {
+		structs[st.Name] = st
+		if st.Namespace != "" {
+			// fields refer to imported types by their bare name
+			structs[strings.TrimPrefix(st.Name, st.Namespace+".")] = st
+		}
+	}
+	for _, union := range f.Unions {
+		for _, ufd := range union.Fields {
+			if ufd.Struct != nil {
+				structs[ufd.Struct.Name] = *ufd.Struct
+			}
+		}
+	}
+	out := make(map[string]struct{})
+	for name := range structs {
+		out[name] = struct{}{}
+	}
+	for changed := true; changed; {
+		changed = false
+		for name, st := range structs {
+			if _, ok := out[name]; !ok {
+				continue
+			}
+			for _, fd := range st.Fields {
+				if _, ok := out[fd.FieldType.Simple]; !ok || fd.FieldType.Simple == "" {
+					delete(out, name)
+					changed = true
+					break
+				}
 			}
 		}
 	}
